@@ -117,6 +117,7 @@ fn main() {
                 "c04" => c04::replay(case),
                 "c05" => c05::replay(case),
                 "c09" => c09::replay(case),
+                "c10-helper" => c10::replay_helper(case),
                 "c10" | "c11" | "c12" | "derived" => hist::replay_by_search(v["property"].as_str().unwrap_or(""), case),
                 "c20" => c20::replay(case),
                 "c18" => c18::replay(case),
